@@ -14,7 +14,7 @@ from . import simcommon as SC
 from .c07 import dev
 
 MODULES = ["TickitModel.Props.C11"]
-THEOREMS = ["identity_preserved", "reaches_master", "all_on_path_stopped", "no_report_for_unknown", "no_tick_after_error"]
+THEOREMS = ["identity_preserved", "reaches_master", "all_on_path_stopped", "no_report_for_unknown", "no_tick_after_error", "run_returns"]
 ANCHORS = ["src/tickit/core/components/component.py", "src/tickit/core/management/schedulers/base.py",
            "src/tickit/core/management/schedulers/master.py", "src/tickit/core/management/schedulers/nested.py",
            "src/tickit/core/components/system_component.py", "src/tickit/core/components/device_component.py",
